@@ -49,6 +49,114 @@ type Cut struct {
 	Kind  FaultKind
 	Dir   Dir
 	After int
+	// Inclusive: the fault strikes as soon as After bytes have been delivered (instead of when
+	// the next byte is about to be).
+	Inclusive bool
+}
+
+// Where is a position relative to a WebSocket frame.
+type Where int
+
+const (
+	Before   Where = iota // no byte of the frame is delivered
+	InHeader              // one byte of the header
+	MidPayload
+	LastByte // everything but the last byte
+	After    // the whole frame, then the link dies at once
+)
+
+func (w Where) String() string {
+	return [...]string{"before", "in-header", "mid-payload", "last-byte", "after"}[w]
+}
+
+// FrameCut arms a fault relative to the Frame-th WebSocket frame (0-based, counted after the
+// HTTP upgrade, control frames included) written in direction Dir. It is resolved to a byte
+// offset when that frame's header is seen, so the position is stable across schedules.
+type FrameCut struct {
+	Kind  FaultKind
+	Dir   Dir
+	Frame int
+	Where Where
+}
+
+// tracker follows the WebSocket framing of one direction incrementally.
+type tracker struct {
+	hs      []byte // handshake bytes seen so far (until \r\n\r\n)
+	hsDone  bool
+	hdr     []byte // header bytes of the frame being started
+	remain  int    // payload bytes still to come in the current frame
+	frames  int    // frames whose header has been completed
+	off     int    // absolute offset of the next byte
+	started int    // absolute offset where the current frame started
+}
+
+// feed consumes p and calls onFrame(index, start, headerLen, payloadLen) for each frame whose
+// header completes inside p.
+func (t *tracker) feed(p []byte, onFrame func(idx, start, hlen, plen int)) {
+	for len(p) > 0 {
+		if !t.hsDone {
+			t.hs = append(t.hs, p[0])
+			p = p[1:]
+			t.off++
+			n := len(t.hs)
+			if n >= 4 && string(t.hs[n-4:]) == "\r\n\r\n" {
+				t.hsDone = true
+				t.hs = nil
+			}
+			continue
+		}
+		if t.remain > 0 {
+			k := t.remain
+			if k > len(p) {
+				k = len(p)
+			}
+			t.remain -= k
+			t.off += k
+			p = p[k:]
+			continue
+		}
+		if len(t.hdr) == 0 {
+			t.started = t.off
+		}
+		t.hdr = append(t.hdr, p[0])
+		p = p[1:]
+		t.off++
+		if hl, pl, ok := parseHeader(t.hdr); ok {
+			onFrame(t.frames, t.started, hl, pl)
+			t.frames++
+			t.remain = pl
+			t.hdr = nil
+		}
+	}
+}
+
+func parseHeader(h []byte) (hlen, plen int, ok bool) {
+	if len(h) < 2 {
+		return 0, 0, false
+	}
+	need := 2
+	n := int(h[1] & 0x7f)
+	if n == 126 {
+		need += 2
+	} else if n == 127 {
+		need += 8
+	}
+	if h[1]&0x80 != 0 {
+		need += 4
+	}
+	if len(h) < need {
+		return 0, 0, false
+	}
+	switch n {
+	case 126:
+		n = int(h[2])<<8 | int(h[3])
+	case 127:
+		n = 0
+		for k := 0; k < 8; k++ {
+			n = n<<8 | int(h[2+k])
+		}
+	}
+	return need, n, true
 }
 
 // Hooks lets the scheduler see writes.
@@ -67,6 +175,7 @@ type Net struct {
 	hooks     Hooks
 	failDials int
 	armed     map[int]*Cut // by link ordinal (0-based dial order)
+	armedF    map[int]*FrameCut
 	DialLog   []DialEvent
 	closed    bool
 }
@@ -83,7 +192,7 @@ func New(h Hooks) *Net {
 	if h.Now == nil {
 		h.Now = func() time.Duration { return 0 }
 	}
-	return &Net{listeners: map[string]*Listener{}, hooks: h, armed: map[int]*Cut{}}
+	return &Net{listeners: map[string]*Listener{}, hooks: h, armed: map[int]*Cut{}, armedF: map[int]*FrameCut{}}
 }
 
 // FailDials makes the next n dials fail.
@@ -100,6 +209,21 @@ func (n *Net) Arm(ord int, c Cut) {
 	n.armed[ord] = &cc
 	if ord < len(n.Links) {
 		n.Links[ord].arm(&cc)
+	}
+	n.mu.Unlock()
+}
+
+// ArmFrame arms a frame-relative cut on the link created by the ord-th successful dial. It
+// must be armed before the frame in question is written.
+func (n *Net) ArmFrame(ord int, c FrameCut) {
+	n.mu.Lock()
+	cc := c
+	n.armedF[ord] = &cc
+	if ord < len(n.Links) {
+		lk := n.Links[ord]
+		lk.mu.Lock()
+		lk.fcut = &cc
+		lk.mu.Unlock()
 	}
 	n.mu.Unlock()
 }
@@ -177,6 +301,9 @@ func (n *Net) Dial(a string) (net.Conn, error) {
 	if c := n.armed[ord]; c != nil {
 		lk.arm(c)
 	}
+	if c := n.armedF[ord]; c != nil {
+		lk.fcut = c
+	}
 	n.DialLog = append(n.DialLog, DialEvent{At: n.hooks.Now(), Addr: a, OK: true, Link: ord})
 	n.mu.Unlock()
 
@@ -229,6 +356,8 @@ type Link struct {
 	fault   FaultKind
 	faultAt time.Duration
 	cut     *Cut
+	fcut    *FrameCut
+	trk     [2]tracker
 	closed  [2]bool // local Close called on client(0) / server(1) end
 	dl      [2]time.Time
 	dlTimer [2]*time.Timer
@@ -281,9 +410,9 @@ func (lk *Link) Fault() (FaultKind, time.Duration) {
 func (lk *Link) applyFault(k FaultKind) {
 	lk.fault = k
 	lk.faultAt = lk.n.hooks.Now()
-	if k == RST {
-		lk.q[0], lk.q[1] = nil, nil
-	}
+	// RST: bytes that already arrived stay readable (the peer may well have consumed them
+	// before the reset came in); once they are drained every read fails. A reset that strikes
+	// before any byte of a frame is the "data lost" case.
 	lk.cond.Broadcast()
 }
 
@@ -324,13 +453,13 @@ func (c *Conn) Read(p []byte) (int, error) {
 		if lk.closed[c.end] {
 			return 0, net.ErrClosed
 		}
-		if lk.fault == RST {
-			return 0, errReset
-		}
 		if len(lk.q[d]) > 0 {
 			n := copy(p, lk.q[d])
 			lk.q[d] = lk.q[d][n:]
 			return n, nil
+		}
+		if lk.fault == RST {
+			return 0, errReset
 		}
 		if lk.closed[1-c.end] || lk.fault == FIN {
 			return 0, io.EOF
@@ -362,9 +491,40 @@ func (c *Conn) Write(p []byte) (int, error) {
 	if lk.closed[1-c.end] {
 		return 0, &net.OpError{Op: "write", Net: "vnet", Err: errors.New("broken pipe")}
 	}
+	lk.trk[d].feed(p, func(idx, start, hlen, plen int) {
+		fc := lk.fcut
+		if fc == nil || fc.Dir != d || fc.Frame != idx || lk.cut != nil {
+			return
+		}
+		c := &Cut{Kind: fc.Kind, Dir: d}
+		switch fc.Where {
+		case Before:
+			c.After = start
+		case InHeader:
+			c.After = start + 1
+		case MidPayload:
+			c.After = start + hlen + plen/2
+		case LastByte:
+			c.After = start + hlen + plen - 1
+		case After:
+			c.After = start + hlen + plen
+			c.Inclusive = true
+		}
+		lk.cut = c
+	})
 	deliver := p
 	hit := false
-	if lk.cut != nil && lk.cut.Dir == d && lk.written[d]+len(p) > lk.cut.After {
+	if lk.cut != nil && lk.cut.Dir == d && lk.cut.Inclusive && lk.fault == None && lk.written[d]+len(p) >= lk.cut.After {
+		k := lk.cut.After - lk.written[d]
+		if k < 0 {
+			k = 0
+		}
+		if k > len(p) {
+			k = len(p)
+		}
+		deliver = p[:k]
+		hit = true
+	} else if lk.cut != nil && lk.cut.Dir == d && !lk.cut.Inclusive && lk.written[d]+len(p) > lk.cut.After {
 		k := lk.cut.After - lk.written[d]
 		if k < 0 {
 			k = 0
@@ -465,4 +625,28 @@ func (lk *Link) Wire(d Dir) []byte {
 	lk.mu.Lock()
 	defer lk.mu.Unlock()
 	return append([]byte(nil), lk.Log[d]...)
+}
+
+// Dials returns a copy of the dial log.
+func (n *Net) Dials() []DialEvent {
+	n.mu.Lock()
+	defer n.mu.Unlock()
+	return append([]DialEvent(nil), n.DialLog...)
+}
+
+// LinkCount returns the number of links created so far.
+func (n *Net) LinkCount() int {
+	n.mu.Lock()
+	defer n.mu.Unlock()
+	return len(n.Links)
+}
+
+// Link returns the i-th link or nil.
+func (n *Net) Link(i int) *Link {
+	n.mu.Lock()
+	defer n.mu.Unlock()
+	if i < len(n.Links) {
+		return n.Links[i]
+	}
+	return nil
 }
